@@ -516,8 +516,18 @@ pub fn minimise(plan: &Plan, v: &Violation, props: &[String], budget: usize) -> 
     let fails = |p: &Plan, ch: Option<Vec<u32>>, tries: &mut usize| -> Option<(RunSummary, Violation)> {
         *tries += 1;
         match run_forked(p, ch, true, props, false, child_timeout_ms()) {
-            ChildResult::Ok(s) => same_violation(&s, &v.prop, &v.rule, &v.fingerprint).map(|x| (s, x)),
-            ChildResult::Crashed(_) => None,
+            ChildResult::Ok(s) => {
+                if std::env::var("DST_DEBUG_MIN").is_ok() {
+                    eprintln!("minimise: child ok, end={} violations={:?}", s.end, s.violations.iter().map(|v| (v.prop.clone(), v.rule.clone(), v.fingerprint.clone())).collect::<Vec<_>>());
+                }
+                same_violation(&s, &v.prop, &v.rule, &v.fingerprint).map(|x| (s, x))
+            }
+            ChildResult::Crashed(m) => {
+                if std::env::var("DST_DEBUG_MIN").is_ok() {
+                    eprintln!("minimise: child crashed: {}", m);
+                }
+                None
+            }
         }
     };
     let (mut best_sum, mut best_v) = fails(&cur, None, &mut tries)?;
@@ -670,9 +680,8 @@ pub fn minimise(plan: &Plan, v: &Violation, props: &[String], budget: usize) -> 
             }
             block /= 2;
         }
-        while choices.last() == Some(&0) {
-            choices.pop();
-        }
+        // (trailing zeros are kept: beyond the end of the vector a select rotates its arms, so
+        // "0" and "absent" are no longer the same pick)
     }
     // final confirmation with exactly the stored artefacts
     let (fin, fv) = fails(&cur, Some(choices.clone()), &mut tries)?;
